@@ -462,6 +462,20 @@ func okPairedResult(h *ssa.Function, idx int) int {
 			}
 			ev, isE := okv.(*ssa.Extract)
 			vv, isV := ssax.Strip(ssax.RetVal(r, idx)).(*ssa.Extract)
+			if k, isK := okv.(*ssa.Const); isK && k.Value != nil && k.Value.String() == "true" && isV && vv.Index == 0 {
+				// `return v, true` behind `if !ok { return nil, false }`: the flag of the lookup is known true here
+				paired := false
+				trues, _ := ssax.BoolFactsAt(r)
+				for _, t := range trues {
+					if te, ok := ssax.Strip(t).(*ssa.Extract); ok && te.Tuple == vv.Tuple && te.Index == 1 {
+						paired = true
+					}
+				}
+				if !paired {
+					all = false
+				}
+				continue
+			}
 			if !isE || !isV || ev.Tuple != vv.Tuple || ev.Index != 1 || vv.Index != 0 {
 				all = false
 			}
